@@ -41,7 +41,7 @@ def concrete_run(exe, case, valfile, tol=None, timeout=120):
 
 def run_phase(chk, name, harness, cases, id_prefixes, prec="d", vendor=False, idx64=False, asan=False, budget_s=240, qtimeout_ms=10000,
               defs=(), bounds="", env=None, key_extra=None, extra_src=(), crash_is_violation=False, event_violations=(), validate_samples=4, tol=None, note_check=None,
-              monitor_ids=()):
+              monitor_ids=(), path_timeout=None):
     """id_prefixes: assertion-id prefixes that belong to the property being checked.
     monitor_ids: path-record counters ('global_stores', 'ws_viol', 'heap_errors') that are violations when non-zero."""
     t0 = time.time()
@@ -51,7 +51,7 @@ def run_phase(chk, name, harness, cases, id_prefixes, prec="d", vendor=False, id
     if not os.path.exists(exe): exe = b.build_harness(harness, hname, defs)
     table = json.load(open(os.path.join(b.wd, hname + ".table.json")))
     outdir = os.path.join(chk.scratch, "out_" + name.replace(" ", "_").replace("/", "_"))
-    ex = e2.Explorer(exe, outdir, qtimeout_ms=qtimeout_ms, budget_s=budget_s, env=env or {})
+    ex = e2.Explorer(exe, outdir, qtimeout_ms=qtimeout_ms, budget_s=budget_s, env=env or {}, path_timeout=path_timeout or (90 if budget_s <= 300 else 600))
     pathlog = []
     def on_path(case, rec, sout):
         if note_check:
